@@ -12,7 +12,8 @@ One skeleton language (the one of coq/model/Scope.v), with
 
 Skeleton terms are nested tuples:
   expr   ("const",) ("read",x) ("bin",a,b) ("call",f,[args]) ("print",[args]) ("mcall",r,m,[args]) ("field",r,f)
-  simple ("expr",e) ("def",mut,[vars],init|None) ("assign",[vars],e) ("aug",x,e) ("fset",r,f,e)
+  simple ("expr",e) ("def",mut,[vars],init|None[,typed]) ("assign",[vars],e) ("aug",x,e) ("fset",r,f,e)
+         (typed = render `def x: Int := e`; the model does not distinguish the two forms)
          ("return",e|None) ("raise",c) ("pass",)
   stmt   ("simple",s) ("handle",s,[(cls,binder|None,body)]) ("if",c,body) ("ifelse",c,t,e)
          ("match",c,[(binder|None,body)]) ("while",c,body) ("for",[vars],col,body)
@@ -82,6 +83,8 @@ HIERARCHIES = [
     {0: [], 1: [0], 2: [1], 3: [0], 4: [], 5: [2]},
     {0: [], 1: [0], 2: [0], 3: [2], 4: [], 5: [3]},
     {0: [], 1: [0], 2: [1], 3: [1], 4: [], 5: [0]},
+    # a chain of depth 4: E6 < E5 < E2 < E1 < Exception
+    {0: [], 1: [0], 2: [1], 3: [0], 4: [], 5: [2], 6: [5]},
 ]
 
 
@@ -268,6 +271,8 @@ class Render:
             fin = "" if s[1] else "fin "
             if s[3] is None:
                 return f"def {fin}{self.pat(s[2])}: Int"
+            if len(s) > 4 and s[4] and len(s[2]) == 1:
+                return f"def {fin}{self.pat(s[2])}: Int := {self.tup(s[2], s[3])}"
             return f"def {fin}{self.pat(s[2])} := {self.tup(s[2], s[3])}"
         if k == "assign":
             return f"{self.pat(s[1])} := {self.tup(s[1], s[2])}"
@@ -370,7 +375,7 @@ def shape_simple(s):
     if k == "expr":
         return shape_expr(s[1])
     if k == "def":
-        return ("def" if s[1] else "deffin") + ("*" if len(s[2]) > 1 else "")
+        return ("def" if s[1] else "deffin") + ("*" if len(s[2]) > 1 else "") + (":t" if len(s) > 4 and s[4] else "")
     if k == "assign":
         return "assign" + ("*" if len(s[1]) > 1 else "")
     return k
@@ -979,7 +984,14 @@ class Gen:
         x = rng.choice(INT_VARS)
         if rng.random() < 0.04:
             return ("def", mut, [x], None)
-        return ("def", mut, [x], self.value(scope, 2, [x]))
+        if rng.random() < 0.12:
+            # typed definition whose initialiser reads the name being defined: a shadowing redefinition when
+            # the name is in scope, a read of an undefined name otherwise (the typed form is the one the
+            # unifier copes with, see the class docstring)
+            other = self.value(scope, 1, [x])
+            init = ("bin", ("read", x), other) if rng.random() < 0.6 else ("bin", other, ("read", x))
+            return ("def", mut, [x], init if rng.random() < 0.8 else ("read", x), True)
+        return ("def", mut, [x], self.value(scope, 2, [x]), rng.random() < 0.3)
 
     def simple(self, scope, ctx):
         r, rng = self.rng.random(), self.rng
@@ -1547,3 +1559,362 @@ def oracle_selftest():
         if got != want:
             bad.append(f"{judge.__name__} on {shape(r.p)} with verdict {r.impl}: expected {want}, got {got}")
     return bad
+
+
+# ------------------------------------------------------------------------------------------------
+# hand-written corpora (shapes the random generator reaches too rarely), all within the skeleton
+# ------------------------------------------------------------------------------------------------
+def selfref_corpus():
+    """C09: definitions whose initialiser reads the name being defined, typed and untyped, in every kind of
+    scope, with no / an earlier / a sibling-branch / a later definition of the name.  With an earlier visible
+    definition it is a shadowing redefinition (accepted), otherwise a read of an undefined name."""
+    tb = Tables(HIERARCHIES[0])
+    k, X, Y = ("const",), 1, 2
+    rd = ("simple", ("expr", ("print", [("read", X)])))
+    first = ("simple", ("def", True, [X], k))
+    inits = [("bin", ("read", X), k), ("bin", k, ("read", X)), ("read", X), ("bin", ("read", X), ("read", Y)),
+             ("bin", ("bin", k, ("read", Y)), ("read", X))]
+    contexts = {
+        "top": lambda pre, hole: pre + hole,
+        "fun": lambda pre, hole: pre + [("fun", 1, [(True, Y)], [], False, hole), ("simple", ("expr", ("call", 1, [k])))],
+        "fun-local": lambda pre, hole: [("fun", 1, [(True, Y)], [], False, pre + hole)],
+        "if": lambda pre, hole: pre + [("if", k, hole)],
+        "then": lambda pre, hole: pre + [("ifelse", k, hole, [("simple", ("pass",))])],
+        "else": lambda pre, hole: pre + [("ifelse", k, [("simple", ("pass",))], hole)],
+        "sibling": lambda pre, hole: [("ifelse", k, pre + [("simple", ("pass",))], hole)],
+        "while": lambda pre, hole: pre + [("while", k, hole)],
+        "for": lambda pre, hole: pre + [("for", [3], k, hole)],
+        "match": lambda pre, hole: pre + [("match", k, [(None, hole), ((True, 3), [("simple", ("pass",))])])],
+        "arm": lambda pre, hole: pre + [("fun", 2, [], [1], True, [("simple", ("return", k))]),
+                                        ("handle", ("def", True, [3], ("call", 2, [])), [(1, None, hole)])],
+        "fun-if": lambda pre, hole: pre + [("fun", 1, [(True, Y)], [], False, [("if", ("read", Y), hole)])],
+        "later": lambda pre, hole: hole + pre,
+    }
+    out = []
+    for cname_, ctx in contexts.items():
+        for pre in ([], [first]):
+            for typed in (False, True):
+                if pre and not typed and cname_ not in ("sibling", "later"):
+                    continue                       # untyped shadowing with self-reference: the unifier's business
+                for mut in (True, False):
+                    for init in inits:
+                        reads_y = "2" in repr(init)
+                        if reads_y and cname_ not in ("fun", "fun-local", "fun-if"):
+                            hole0 = [("simple", ("def", True, [Y], k))]
+                        else:
+                            hole0 = []
+                        hole = hole0 + [("simple", ("def", mut, [X], init, typed)), rd]
+                        out.append((ctx(list(pre), hole), tb))
+    return out
+
+
+def raise_list_corpus():
+    """C08: `raise [..]` lists in which one name is a plain class (E4) or undefined (E7), in every position,
+    among Exception itself and real exception classes; bodies that raise the offending class; call sites with an
+    arm for it.  All-valid lists as controls."""
+    tb = Tables(HIERARCHIES[0])
+    k = ("const",)
+    valid, out = [0, 1, 2, 5], []
+    lists = []
+    for bad in (4, 7):
+        for n in (1, 2, 3):
+            for pos in range(n):
+                for rot in range(2 if n > 1 else 1):
+                    others = [valid[(rot + j) % len(valid)] for j in range(n - 1)]
+                    lists.append((others[:pos] + [bad] + others[pos:], bad))
+    for ctl in ([0], [0, 1], [1, 0], [2, 0, 1], [5, 0], [0, 5, 2]):
+        lists.append((ctl, None))
+    for rs, bad in lists:
+        bodies = [[("simple", ("expr", ("print", [k])))]]
+        if bad == 4:
+            bodies.append([("simple", ("raise", 4))])
+        bodies.append([("simple", ("raise", next(c for c in rs if c not in (4, 7)) if any(c not in (4, 7) for c in rs) else 1))]
+                      if (bad is None or len(rs) > 1) else [("simple", ("pass",))])
+        for body in bodies:
+            f = ("fun", 1, [], list(rs), False, body)
+            arms = [0] + ([4] if bad == 4 else []) + [c for c in rs if c not in (0, 4, 7)][:1]
+            sites = [[]]
+            for a in arms:
+                sites.append([("handle", ("expr", ("call", 1, [])), [(a, (True, 90), [("simple", ("expr", ("print", [k])))])])])
+                sites.append([("fun", 2, [], [], False,
+                               [("handle", ("expr", ("call", 1, [])), [(a, None, [("simple", ("pass",))])])])])
+            for site in sites:
+                out.append(([f] + site, tb))
+                if site:
+                    out.append((site[:0] + [("simple", ("def", True, [1], k))] + [f] + site, tb))
+    return out
+
+
+def ancestor_corpus():
+    """C08, positive half: for every exception class R of every hierarchy (depth up to 4) and every exception class
+    A: R raised / a function raising R called inside a function that is protected ONLY by A - as declared
+    `raise [A]`, as the single arm of a handle (statement, initialiser, raise), directly and inside a branch.
+    Accepted iff A is R or an ancestor of R."""
+    out = []
+    k = ("const",)
+    for h in HIERARCHIES:
+        tb = Tables(h)
+        excs = [c for c in tb.ct if tb.is_exc(c)]
+        for R in [c for c in excs if c != 0]:
+            g = ("fun", 1, [], [R], False, [("simple", ("raise", R))])
+            gi = ("fun", 3, [], [R], True, [("simple", ("return", k))])
+            for A in excs:
+                arm = lambda body=None: [(A, None, body or [("simple", ("pass",))])]
+                progs = [
+                    [("fun", 2, [], [A], False, [("simple", ("raise", R))])],
+                    [g, ("fun", 2, [], [A], False, [("simple", ("expr", ("call", 1, [])))])],
+                    [g, ("fun", 2, [], [], False, [("handle", ("expr", ("call", 1, [])), arm())])],
+                    [("fun", 2, [], [], False, [("handle", ("raise", R), arm())])],
+                    [gi, ("fun", 2, [], [], False, [("handle", ("def", True, [1], ("call", 3, [])), arm()),
+                                                     ("simple", ("expr", ("print", [("read", 1)])))])],
+                    [g, ("fun", 2, [(True, 2)], [A], False,
+                         [("ifelse", ("read", 2), [("simple", ("raise", R))], [("simple", ("expr", ("call", 1, [])))])])],
+                    [g, ("fun", 2, [(True, 2)], [], False,
+                         [("while", ("read", 2), [("handle", ("expr", ("call", 1, [])), arm())])])],
+                ]
+                out += [(p, tb) for p in progs]
+    return out
+
+
+# ------------------------------------------------------------------------------------------------
+# constructors: definite assignment of non-nullable fields (C09).  NOT part of model/Scope.v (the model has
+# no class bodies): this family is judged by the declarative specification below and by executing the
+# emitted Python only.
+#   body  ("fa",f) self.a<f> := 1 | ("fr",f) print(self.a<f>) | ("o",) print(0) | ("ret",) | ("rs",) raise E1()
+#         | ("if",B) | ("ie",B,B) | ("mt",[B..]) match with a final `_` arm | ("wh",B) | ("fo",B)
+# ------------------------------------------------------------------------------------------------
+class CtorRender:
+    def __init__(self, variant=0):
+        self.variant, self.n = variant, 0
+
+    def cond(self):
+        bit = (self.variant >> (self.n % 16)) & 1
+        self.n += 1
+        return f"c > {BIG if bit else -BIG}"
+
+    def block(self, b, ind):
+        sp, out = " " * ind, []
+        for s in b or [("o",)]:
+            k = s[0]
+            if k == "fa":
+                out.append(f"{sp}self.a{s[1]} := {s[1]}")
+            elif k == "fr":
+                out.append(f"{sp}print(self.a{s[1]})")
+            elif k == "o":
+                out.append(f"{sp}print(0)")
+            elif k == "ret":
+                out.append(f"{sp}return")
+            elif k == "rs":
+                out.append(f"{sp}raise E1()")
+            elif k == "if":
+                out += [f"{sp}if {self.cond()} then"] + self.block(s[1], ind + 4)
+            elif k == "ie":
+                c = self.cond()
+                out += [f"{sp}if {c} then"] + self.block(s[1], ind + 4) + [f"{sp}else"] + self.block(s[2], ind + 4)
+            elif k == "mt":
+                sel = (self.variant >> (self.n % 16)) % len(s[1])         # which arm runs: steer the subject
+                self.n += 1
+                out.append(f"{sp}match c * 0 + {sel if sel < len(s[1]) - 1 else 99}")
+                for j, arm in enumerate(s[1]):
+                    out.append(f"{sp}    {j if j < len(s[1]) - 1 else '_'} =>")
+                    out += self.block(arm, ind + 8)
+            elif k == "wh":
+                out += [f"{sp}while c > {BIG} do"] + self.block(s[1], ind + 4)
+            elif k == "fo":
+                out += [f"{sp}for i in 0 .. 2 do"] + self.block(s[1], ind + 4)
+            else:
+                raise ValueError(s)
+        return out
+
+
+def render_ctor(body, fields, variant=0):
+    lines = ['class E1: Exception("E1")', "class K0"]
+    lines += [f"    def a{f}: Int" for f in fields]
+    lines += ["    def __init__(self, c: Int) raise [E1] =>"] + CtorRender(variant).block(body, 8)
+    lines += ["def o := K0(1)"] + [f"print(o.a{f})" for f in fields]
+    return "\n".join(lines) + "\n"
+
+
+def ctor_spec(body, fields, abrupt=True):
+    """Flow specification.  A = fields definitely assigned on every path that reaches the point.
+    issues: ("read", f) a field read that is not definitely assigned; ("exit", f) a normal exit of the constructor
+    (end of body, `return`) that leaves a non-nullable field unassigned.  A `raise` exit owes nothing.
+    abrupt=False treats return/raise as ordinary statements that complete (what a checker does that ignores
+    abrupt completion): used only to name the cause of an over-rejection."""
+    issues = []
+
+    def blk(b, A):
+        for s in b:
+            if A is None:
+                break                                   # unreachable
+            k = s[0]
+            if k == "fa":
+                A = A | {s[1]}
+            elif k == "fr":
+                if s[1] not in A:
+                    issues.append(("read", s[1]))
+            elif k == "ret":
+                issues.extend(("exit", f) for f in fields if f not in A)
+                if abrupt:
+                    A = None
+            elif k == "rs":
+                if abrupt:
+                    A = None
+            elif k == "if":
+                blk(s[1], A)
+            elif k == "ie":
+                outs = [x for x in (blk(s[1], A), blk(s[2], A)) if x is not None]
+                A = frozenset.intersection(*outs) if outs else None
+            elif k == "mt":
+                outs = [x for x in (blk(arm, A) for arm in s[1]) if x is not None]
+                A = frozenset.intersection(*outs) if outs else None
+            elif k in ("wh", "fo"):
+                blk(s[1], A)
+        return A
+
+    end = blk(body, frozenset())
+    if end is not None:
+        issues.extend(("exit", f) for f in fields if f not in end)
+    return issues
+
+
+def ctor_shape(b):
+    out = []
+    for s in b:
+        k = s[0]
+        if k in ("fa", "fr"):
+            out.append(f"{k}{s[1]}")
+        elif k in ("o", "ret", "rs"):
+            out.append(k)
+        elif k == "ie":
+            out.append("ie{" + ctor_shape(s[1]) + "|" + ctor_shape(s[2]) + "}")
+        elif k == "mt":
+            out.append("mt{" + "|".join(ctor_shape(a) for a in s[1]) + "}")
+        else:
+            out.append(k + "{" + ctor_shape(s[1]) + "}")
+    return ";".join(out)
+
+
+FIELD_MSG = re.compile(r"^(Cannot access unassigned field |Non nullable attribute )")
+
+
+def judge_ctor(body, fields, resp):
+    """(status, what, cause): status in accept | reject-field | reject-other | outside."""
+    st = resp[0]
+    first = unhex(resp[2]).split("\x1e")[0] if st == "ERR" and len(resp) > 2 else ""
+    issues = ctor_spec(body, fields)
+    if st == "OK":
+        reads = [i for i in issues if i[0] == "read"]
+        if reads:
+            return "accept", f"accepted although field a{reads[0][1]} is read before it is definitely assigned", \
+                   "field-read-before-assignment"
+        if issues:
+            return "accept", f"accepted although the constructor can finish with field a{issues[0][1]} unassigned", \
+                   "ctor-exit-leaves-field-unassigned"
+        return "accept", None, None
+    if st == "ERR" and resp[1] == "type" and FIELD_MSG.search(first):
+        if not issues:
+            lenient = ctor_spec(body, fields, abrupt=False)
+            cause = "over-reject-field-branch-never-completes" if lenient else "over-reject-field"
+            return "reject-field", "rejected although every field is assigned on all completing paths and every " \
+                                   "read is preceded by an assignment: " + first.split("\n")[0], cause
+        return "reject-field", None, None
+    if st == "ERR" and resp[1] == "type":
+        return "reject-other", None, None
+    return "outside", None, None
+
+
+CTOR_BRANCHES = [
+    [("fa", 1)], [("o",)], [("ret",)], [("rs",)], [("if", [("ret",)])], [("if", [("ret",)]), ("o",)],
+    [("if", [("rs",)]), ("o",)], [("if", [("fa", 1)])], [("if", [("ret",)]), ("fa", 1)], [("if", [("rs",)]), ("fa", 1)],
+    [("o",), ("fa", 1)], [("fa", 1), ("ret",)], [("fa", 1), ("rs",)], [("o",), ("ret",)], [("o",), ("rs",)],
+    [("ie", [("fa", 1)], [("fa", 1)])], [("ie", [("fa", 1)], [("ret",)])], [("ie", [("fa", 1)], [("rs",)])],
+    [("ie", [("ret",)], [("rs",)])], [("wh", [("fa", 1)])], [("fo", [("fa", 1)])],
+    [("mt", [[("fa", 1)], [("fa", 1)]])], [("mt", [[("fa", 1)], [("rs",)]])], [("mt", [[("o",)], [("fa", 1)]])],
+    [("fr", 1)], [("fa", 1), ("fr", 1)],
+]
+
+
+def ctor_corpus(rng, quick):
+    """prefix x (if/else | match | if | plain) over all pairs of branch shapes x suffix; plus a second field."""
+    pre = [[], [("o",)], [("if", [("ret",)])], [("if", [("rs",)])], [("fo", [("o",)])]]
+    suf = [[], [("fr", 1)], [("fa", 1), ("fr", 1)], [("fr", 1), ("fa", 1)]]
+    B = CTOR_BRANCHES
+    mains = [[("ie", a, b)] for a in B for b in B]
+    mains += [[("if", a)] for a in B] + [list(a) for a in B]
+    mains += [[("wh", a)] for a in B[:12]] + [[("fo", a)] for a in B[:12]]
+    triples = [(a, b, c) for a in B for b in B for c in B]
+    mains += [[("mt", list(t))] for t in (rng.sample(triples, 150 if quick else 3000))]
+    allp = [(p + m + s_, (1,)) for m in mains for p in pre for s_ in suf]
+    two = [([("fa", 2)] + m + [("fr", 2)] + s_, (1, 2)) for m in mains[:120] for s_ in suf[:2]]
+    two += [(m + s_, (1, 2)) for m in mains[:60] for s_ in suf[:2]]
+    if quick:
+        allp = rng.sample(allp, 1100)
+        two = rng.sample(two, 150)
+    fixed = [([("ie", [("fa", 1)], [("if", [("ret",)]), ("o",)]), ("fr", 1)], (1,)),
+             ([("ie", [("fa", 1)], [("if", [("rs",)]), ("o",)]), ("fr", 1)], (1,)),
+             ([("ie", [("fa", 1)], [("fa", 1)]), ("fr", 1)], (1,)),
+             ([("ie", [("fa", 1)], [("rs",)]), ("fr", 1)], (1,)),
+             ([("ie", [("fa", 1)], [("ret",)]), ("fr", 1)], (1,)),
+             ([("if", [("ret",)]), ("fa", 1), ("fr", 1)], (1,))]
+    def wellformed(b):                     # `return` / `raise` end their block (the parser needs it for `return`)
+        for i, x in enumerate(b):
+            if x[0] in ("ret", "rs") and i != len(b) - 1:
+                return False
+            if x[0] in ("if", "wh", "fo") and not wellformed(x[1]):
+                return False
+            if x[0] == "ie" and not (wellformed(x[1]) and wellformed(x[2])):
+                return False
+            if x[0] == "mt" and not all(wellformed(a) for a in x[1]):
+                return False
+        return True
+
+    seen, out = set(), []
+    for b, f in fixed + allp + two:
+        key = ctor_shape(b) + str(f)
+        if key not in seen and wellformed(b):
+            seen.add(key)
+            out.append((b, f))
+    return out
+
+
+def run_ctor_family(ck, rep_cause, quick, variants=(0, 0xFFFF, 0x5A5A, 0x3C3C), only=None):
+    """Evaluate the constructor family; `rep_cause(what, cause, text, data)` reports one candidate.
+    Returns the coverage dictionary."""
+    import collections
+    cases = only if only is not None else ctor_corpus(ck.rng, quick)
+    resp = transpile_all([render_ctor(b, f) for b, f in cases])
+    st = collections.Counter()
+    accepted = []
+    for (b, f), r in zip(cases, resp):
+        status, what, cause = judge_ctor(b, f, r)
+        st[status] += 1
+        if cause:
+            rep_cause(what, cause, f"CAUSE:{cause} SHAPE:ctor[{ctor_shape(b)}]",
+                      {"ctor_body": b, "fields": list(f), "mamba": render_ctor(b, f), "spec_issues": ctor_spec(b, f)})
+        if status == "accept":
+            accepted.append((b, f))
+    # run the emitted Python of the accepted ones: a non-nullable field must never be seen as None
+    jobs = [(b, f, v) for b, f in accepted for v in variants]
+    resp = transpile_all([render_ctor(b, f, v) for b, f, v in jobs])
+    py, keep = [], []
+    for j, r in zip(jobs, resp):
+        if r[0] == "OK":
+            py.append(unhex(r[1]).split("\x1e")[0])
+            keep.append(j)
+    res = run_python(py)
+    n_none, flagged = 0, set()
+    outcomes = collections.Counter()
+    for (b, f, v), src, (status, msg, out) in zip(keep, py, res):
+        outcomes[status] += 1
+        if ("None" in out or status == "AttributeError") and ctor_shape(b) not in flagged:
+            flagged.add(ctor_shape(b))
+            n_none += 1
+            issues = ctor_spec(b, f)
+            cause = ("field-read-before-assignment" if any(i[0] == "read" for i in issues) else
+                     "ctor-exit-leaves-field-unassigned" if issues else "runtime-unassigned-field")
+            rep_cause(f"a non-nullable field is None / missing when read (python: {status} {msg} {out!r})", cause,
+                      f"CAUSE:{cause} SHAPE:ctor[{ctor_shape(b)}]",
+                      {"ctor_body": b, "fields": list(f), "variant": v, "mamba": render_ctor(b, f, v), "emitted": src})
+    return {"programs": len(cases), "verdicts": dict(st), "python_runs": len(keep), "python_outcomes": dict(outcomes),
+            "programs_with_unassigned_field_at_run_time": n_none}
